@@ -33,6 +33,33 @@ INV_DTYPE_LOOKUP = {
 }
 
 
+def _arg_to_json_like(arg, _depth=0):
+    """JSON-like form of a condition argument, as `ConditionLike.from_spec` reads it back:
+    data paths (as the argument, or as an item / value of a list / mapping argument) become
+    path specs, and mappings whose keys would be read as a path spec get escaped keys."""
+    if isinstance(arg, valida.datapath.DataPath):
+        key = "path"
+        if arg.DATUM_TYPE.value:
+            key += "." + arg.DATUM_TYPE.name.lower()
+        if arg.MULTI_TYPE.value:
+            key += "." + arg.MULTI_TYPE.name.lower()
+        return {key: arg.to_part_specs()}
+    elif isinstance(arg, dict):
+        path_like = [isinstance(k, str) and k.startswith("path") for k in arg]
+        # items / values are only inspected by `from_spec` one level down, and not at all
+        # in a mapping that has an escaped key:
+        recurse = _depth == 0 and not any(path_like)
+        return {
+            ("\\" + k if is_path_like else k): (
+                _arg_to_json_like(v, _depth + 1) if recurse else copy.deepcopy(v)
+            )
+            for (k, v), is_path_like in zip(arg.items(), path_like)
+        }
+    elif isinstance(arg, (list, tuple)) and _depth == 0:
+        return [_arg_to_json_like(i, _depth + 1) for i in arg]
+    return copy.deepcopy(arg)
+
+
 class PreparedConditionCallable:
     def __init__(self, func, *args, **kwargs):
         self._func = func
@@ -721,8 +748,9 @@ class Condition(ConditionLike):
             # single pos-or-kw and nothing else, spec val is just that single value
             # (which some DSL methods store positionally):
             single_arg = list(self.callable.args) + list(self.callable.kwargs.values())
-            spec_val = copy.deepcopy(single_arg[0])
+            spec_val = _arg_to_json_like(single_arg[0])
             if cast_types:
+                spec_val = copy.deepcopy(single_arg[0])
                 if isinstance(spec_val, (list, tuple)):
                     spec_val = [INV_DTYPE_LOOKUP[i] for i in spec_val]
                 else:
@@ -732,7 +760,9 @@ class Condition(ConditionLike):
             func_args[i] for i in ("VAR_POSITIONAL", "VAR_KEYWORD")
         ):
             # more than one pos-or-kw and nothing else, spec val is a dict of kwargs:
-            spec_val = copy.deepcopy(self.callable.kwargs)
+            spec_val = {
+                k: _arg_to_json_like(v, 1) for k, v in self.callable.kwargs.items()
+            }
             if cast_types:
                 for k, v in spec_val.items():
                     try:
@@ -744,7 +774,7 @@ class Condition(ConditionLike):
             func_args[i] for i in ("POSITIONAL_OR_KEYWORD", "VAR_KEYWORD")
         ):
             # one var-positional and nothing else, spec val is a list of args:
-            spec_val = copy.deepcopy(list(self.callable.args))
+            spec_val = [_arg_to_json_like(v, 1) for v in self.callable.args]
             if cast_types:
                 for idx, val in enumerate(spec_val):
                     try:
@@ -754,7 +784,9 @@ class Condition(ConditionLike):
 
         elif len(func_args["VAR_KEYWORD"]) == 1 and not func_args["VAR_POSITIONAL"]:
             # zero or more pos-or-kw args and a var-kw arg, spec val is a dict of kwargs:
-            spec_val = copy.deepcopy(self.callable.kwargs)
+            spec_val = {
+                k: _arg_to_json_like(v, 1) for k, v in self.callable.kwargs.items()
+            }
             if cast_types:
                 for k, v in spec_val.items():
                     try:
